@@ -305,7 +305,35 @@ fn main() {
             "mk" => {
                 let n: usize = toks[1].parse().unwrap();
                 let data = render(&toks[2..]);
-                format!("{} ;; {}", url_table(&data), by_cap!(n, do_try(0, &data)))
+                // request level (C02: "the parsed request exposes ... every header field in the order sent"): the same
+                // bytes through read_http_request; the header list the handler would see, or `-` when it is refused
+                let rq = if n == 8192 {
+                    let d2 = data.clone();
+                    guarded(move || {
+                        let mut buf: FixedBuf<8192> = FixedBuf::new();
+                        let addr = "127.0.0.1:1".parse().unwrap();
+                        let rdr = futures_lite::io::Cursor::new(d2);
+                        match futures_lite::future::block_on(read_http_request(addr, &mut buf, rdr)) {
+                            Ok(r) => {
+                                let mut s = format!(
+                                    "{} {} {} H{}",
+                                    tok_of_bytes(r.method.as_bytes()),
+                                    tok_of_bytes(r.url.path().as_bytes()),
+                                    r.url.query().map_or("-".to_string(), |q| tok_of_bytes(q.as_bytes())),
+                                    r.headers.len()
+                                );
+                                for hd in r.headers.iter() {
+                                    s.push_str(&format!(" {} {}", tok_of_bytes(hd.name.as_bytes()), tok_of_bytes(hd.value.as_bytes())));
+                                }
+                                s
+                            }
+                            Err(_) => "-".to_string(),
+                        }
+                    })
+                } else {
+                    "-".to_string()
+                };
+                format!("{} ;; {} ; rq {}", url_table(&data), by_cap!(n, do_try(0, &data)), rq)
             }
             "head" | "req" => {
                 let n: usize = toks[1].parse().unwrap();
